@@ -416,9 +416,14 @@ def setDTypeOk (h : H1) (d : DType) : Bool :=
   d == h.dtype || h.dtype.canCast d ||
     ((!(d.isInt && !h.dtype.isInt) || (h.freq ++ h.err2).all isIntegral) && fitsRange (h.freq ++ h.err2) d)
 
+/-- `ndarray.astype(int)` on a missed slot: truncation toward zero (NaN stays NaN) -/
+def truncN (d : DType) (a : NRat) : NRat := if d.isInt then a.map fun q => ((q.num.tdiv q.den : Int) : Rat) else a
+
 /-- `set_dtype(value)`: validate first, convert afterwards -/
 def setDType (h : H1) (d : DType) : R H1 :=
-  if setDTypeOk h d then pure { h with dtype := d } else throw "dtype change refused"
+  if setDTypeOk h d then
+    pure { h with dtype := d, under := truncN d h.under, over := truncN d h.over, inner := truncN d h.inner }
+  else throw "dtype change refused"
 
 /-- `copy(include_frequencies=…)` -/
 def copy (h : H1) (withFreq : Bool) : H1 :=
